@@ -287,7 +287,7 @@ def run_check(pid, tier, seed, replay=None, ncases=None):
     n = int(n * monitors.CASE_SCALE.get(pid, 1.0))
     cases = corpus_cases(pid, tier) + generated_cases(pid, seed, n)
     known = [k for k in load_known().get("findings", []) if k["property"] == pid]
-    stats = {"evaluations": 0, "outcomes": {}, "nontrivial_hashes": set(), "diffs": 0, "monitor_fail": 0,
+    stats = {"evaluations": 0, "outcomes": {}, "nontrivial_hashes": set(), "diffs": 0, "monitor_fail": 0, "outcome_mismatch": 0,
              "known_hits": {}, "features": {}}
     samples = []
     diff_cases = []
@@ -316,7 +316,7 @@ def run_check(pid, tier, seed, replay=None, ncases=None):
             oi = obs(ji, c)
             om = obs(jm, c) if jm is not None else None
             if monitors.nontrivial(pid, c, ji):
-                stats["nontrivial_hashes"].add(jhash(oi))
+                stats["nontrivial_hashes"].add(jhash(monitors.coverage_key(pid, c, ji, oi)))
             if len(samples) < 3 and oc[0] == "ok" and monitors.nontrivial(pid, c, ji):
                 samples.append({"id": c.cid, "yaml": json.dumps(c.doc)[:600], "options": c.opts,
                                 "partial": c.partial, "observable": json.dumps(oi, default=str)[:400]})
@@ -329,15 +329,31 @@ def run_check(pid, tier, seed, replay=None, ncases=None):
                 stats["monitor_fail"] += 1
                 fail_cases.append((c, ji, jm, fails))
             if jm is not None and oi != om and kf is None:
+                own = monitors.OUTCOME_OWNERS.get(pid)
+                if props.outcome(ji) != props.outcome(jm) and not (own and own(props.outcome(ji), props.outcome(jm), c)):
+                    # accepted / rejected / failed differently: whether a document is accepted and whether generation
+                    # succeeds is the subject of the properties named in monitors.OUTCOME_OWNERS; this property speaks about the
+                    # outputs of successful generations, and there is no pair of outputs to compare here (the
+                    # monitors above still ran on the implementation's output, if any)
+                    stats["outcome_mismatch"] += 1
+                    continue
                 stats["diffs"] += 1
                 diff_cases.append((c, ji, jm, oi, om))
+        if stats["outcome_mismatch"] * 10 > max(1, stats["evaluations"]):
+            proof_broken.append("correspondence: the implementation accepts/rejects/fails differently from the model on %d of %d "
+                                "cases; too few comparable outputs are left to tie the theorems of this property to /repo"
+                                % (stats["outcome_mismatch"], stats["evaluations"]))
     else:
         proof_broken.append("model driver or harness missing: " + build_log[-600:])
 
     # extra, property-specific dynamic checks (determinism runs, real linker, CLI ...)
     extra = monitors.dynamic(pid, tier, seed, cases)
     dyn_payload = {}
+    dyn_corr = []            # executed checks that compare the MODEL with the real thing: correspondence, not property
     for e in extra.get("violations", []):
+        if e.get("correspondence"):
+            dyn_corr.append(e)
+            continue
         fail_cases.append((e["case"], e.get("impl"), None, [e["what"]]))
         dyn_payload[id(e["case"])] = {k: v for k, v in e.items() if k not in ("case", "impl", "what")}
     stats["features"].update(extra.get("features", {}))
@@ -377,6 +393,18 @@ def run_check(pid, tier, seed, replay=None, ncases=None):
             "case": c2.to_json(), "original_case": c.to_json(), "n_differing_cases": len(diff_cases),
             "impl_obs": oi, "model_obs": om})
         violations.append((p, "" if functional else " no-failing-input-found"))
+    elif dyn_corr:
+        e = dyn_corr[0]
+        nrep += 1
+        c = e["case"]
+        p = write_replay(pid, seed, nrep, {
+            "property": pid, "kind": "correspondence-broken",
+            "what": "executed correspondence (model against the real program) differs: %s; the theorems of "
+                    "coq/Properties/%s.v are about the model" % (e["what"], pid),
+            "case": c.to_json() if hasattr(c, "to_json") else c,
+            "executed_check": {k: v for k, v in e.items() if k not in ("case", "impl", "what")},
+            "n_differing_cases": len(dyn_corr)})
+        violations.append((p, " no-failing-input-found"))
     elif proof_broken:
         nrep += 1
         p = write_replay(pid, seed, nrep, {"property": pid, "kind": "proof-obligation-broken",
@@ -407,6 +435,7 @@ def run_check(pid, tier, seed, replay=None, ncases=None):
             "traces_validated_against_impl": stats["evaluations"],
             "extraction_crosscheck_cases": xcheck_n,
             "correspondence_differences": stats["diffs"],
+            "outcome_mismatches_left_to_owning_properties": stats["outcome_mismatch"],
             "monitor_failures": stats["monitor_fail"],
             "known_finding_hits": stats["known_hits"],
             "outcome_distribution": stats["outcomes"],
